@@ -115,6 +115,17 @@ CMD = {"none": [], "nosuch": ["frobnicate"], "cat": ["cat"], "info-all": ["info"
        "extract-nodir": ["extract-files", "/nonexistent/dir"], "help-cmd": ["help", "cat"], "help-nosuch": ["help", "frobnicate"], "cat-nodrive": ["cat", "7"]}
 
 
+def run_patient(argv, dfs_san, dfs_nd, timeout, **kw):
+    """A run that does not come back within `timeout` is repeated once with the pinned build and six times the limit: the sanitizer
+    build on a loaded machine can be slow without the program being at fault, and only a repeated failure to terminate is reported."""
+    o = common.run(argv, timeout=timeout, **kw)
+    if o.timed_out:
+        o2 = common.run([dfs_nd if a == dfs_san else a for a in argv], timeout=6 * timeout, **kw)
+        if not o2.timed_out:
+            return o2
+    return o
+
+
 def run(chk, tier, seed):
     bsan = common.build("san")
     bnd = common.build("ndebug")
@@ -166,7 +177,7 @@ def run(chk, tier, seed):
             for cmd in sel:
                 for verbose in ([False, True] if i % 3 == 0 else [False]):
                     argv = [dfs] + (["--verbose"] if verbose else []) + ["--file", p] + [a.replace("{DEST}", dest) for a in cmd]
-                    o = common.run(argv, timeout=10)
+                    o = run_patient(argv, dfs, dfs_nd, 20)
                     evs.append(classify(o, argv, "hostile:" + c["kind"], dict(h=c["h"])))
             # peak memory in the pinned configuration
             if i % 2 == 0:
@@ -230,7 +241,7 @@ def run(chk, tier, seed):
             sel = fcmds if (c.get("all_cmds") or i % 5 == 0) else [fcmds[0], fcmds[1 + i % 9], fcmds[1 + (i // 9) % 9]]
             for cmd in sel:
                 argv = [dfs] + (["--verbose"] if i % 4 == 0 else []) + ["--file", p] + [a.replace("{DEST}", dest) for a in cmd]
-                o = common.run(argv, timeout=20)
+                o = run_patient(argv, dfs, dfs_nd, 30)
                 e = classify(o, argv, "fluxsem:" + fmt, dict(secs=c["secs"], model_accepts=c["accept"]))
                 if cmd == ["type", "A"] or (cmd == ["cat"] and not c.get("all_cmds")):
                     e["extra"]["accepted"] = o.rc == 0
@@ -259,7 +270,7 @@ def run(chk, tier, seed):
                     jobs.append([dfs, "--file", pm] + cmd)
             jobs.append([dfs, "--file", pm, "show-titles"])
             jobs.append([dfs, "--file", pm, "--show-config", "cat"])
-            for o, argv in zip(common.pmap(lambda a: common.run(a, timeout=20), jobs), jobs):
+            for o, argv in zip(common.pmap(lambda a: run_patient(a, dfs, dfs_nd, 30), jobs), jobs):
                 events.append(classify(o, argv, "mmbslot", dict(status=st)))
         # command lines
         okimg = discs.build("DFS", [mkdisc.entry("A", length=300, start=5)], scratch, "ok", nsectors=400, salt=3, title=b"OKIMG")
@@ -274,7 +285,7 @@ def run(chk, tier, seed):
             for t in c["opts"]:
                 argv += OPT[t](files)
             argv += CMD[c["cmd"]]
-            o = common.run(argv, timeout=20, cwd=scratch)
+            o = run_patient(argv, dfs, dfs_nd, 30, cwd=scratch)
             e = classify(o, argv, "cli", dict(opts=c["opts"], cmd=c["cmd"], predicted=c["exit"]))
             return e
         events += common.pmap(do_c, csel)
@@ -292,7 +303,7 @@ def run(chk, tier, seed):
                     pre = [x for x in cmd if x.startswith("--") or x == "1" and cmd[0] == "--drive"][:2] if cmd[0] == "--drive" else []
                     argv = [dfs, "--drive-first", "--file", a, "--file", b] + cmd
                     mjobs.append(argv)
-        for o, argv in zip(common.pmap(lambda a_: common.run(a_, timeout=20), mjobs), mjobs):
+        for o, argv in zip(common.pmap(lambda a_: run_patient(a_, dfs, dfs_nd, 30), mjobs), mjobs):
             events.append(classify(o, argv, "multi-drive", dict(files=[os.path.basename(x) for x in argv[3:6:2]])))
         # havoc
         corpus = [okimg.path]
@@ -335,7 +346,7 @@ def run(chk, tier, seed):
             evs = []
             for cmd in (cmds[i % len(cmds)], cmds[(i // 7) % len(cmds)], ["cat"]):
                 argv = [dfs] + (["--verbose"] if i % 5 == 0 else []) + ["--file", p] + [a.replace("{DEST}", dest) for a in cmd]
-                o = common.run(argv, timeout=20)
+                o = run_patient(argv, dfs, dfs_nd, 30)
                 evs.append(classify(o, argv, "havoc:" + ext.lstrip("."), dict(kind=kind, src=os.path.basename(src), i=i)))
             os.unlink(p)
             return evs
